@@ -10,13 +10,14 @@ EXPLANATION = (
     "documented-panicking std API (denylist), every natural loop and every call-graph cycle in all bodies of the library is enumerated; each must be one "
     "of the three documented panics or be discharged by a justification that the checker re-verifies from the extracted facts (J1 uncallable, J2 infallible "
     "fmt::Write into a string, J3 callee always returns Some, J4/J5/J6/J7 index provenance from the binary search or the matching insert, J8 non-zero constant "
-    "divisor, J9/J10 additions of lengths/counts bounded by the size of live data). Subtraction, negation and multiplication overflow checks have NO table "
+    "divisor, J9/J10 additions of lengths/counts bounded by the size of live data, J12 a subtraction of a constant under a dominating guard that implies the bound). Other subtraction, negation and multiplication overflow checks have NO table "
     "justification: they need a dominating guard. Panics inside dependencies and std are covered only through the denylist of their documented-panicking APIs."
 )
 RULE_TEXT = "obligations = one per panic site (Assert / denylisted call), one per loop (finite iterator header), one per call-graph SCC; plus the documented-panic table"
 ASSUMPTIONS = [
     "panics, overflow or non-termination INSIDE dependencies and std are not analysed (only calls of their documented-panicking APIs are tracked); an unlisted panicking API is not seen",
     "allocation failure, stack depth and capacity requests passed as caller-supplied usize (reserve, reserve_exact, with_capacity) are outside the property's string-argument quantifier: listed, not claimed",
+    "J12: x - c is justified only by a dominating branch condition on the same x that implies x >= c (x != 0, x > k, x >= k)",
     "J9: a sum of lengths of strings/collections that are simultaneously alive, plus their count, cannot exceed usize::MAX (each counted element occupies at least one byte of address space)",
 ]
 TRUSTED_BASE = ["denylist of panicking std APIs (DESIGN.md 3.2)", "callee semantics table (DESIGN.md section 3)"]
@@ -197,6 +198,27 @@ def justify(facts, s):
             if all(bounded_term(o) for o in ops):
                 return "J9", "operands are lengths/counts/sums of live data or constants <= 1: %s" % " + ".join(nshow(o)[:50] for o in ops)
             return None, "addition operands are not bounded by a length/count: %s" % " + ".join(nshow(o)[:60] for o in ops)
+        if what.startswith("Overflow(Sub") and len(ops) == 2 and ops[1][0] == "const" and isinstance(ops[1][1], int):
+            # J12: x - c under a dominating guard that implies x >= c (x != 0 / x > 0 / x >= c for c = 1; x >= k, x > k-1)
+            c_ = ops[1][1]
+            from purlsa.sem import atoms_at as _atoms_at
+            for _, a in _atoms_at(b, bb):
+                if a[0] != "cmp":
+                    continue
+                op, x, y, pos = a[1], a[2], a[3], a[4]
+                if x != ops[0] or y[0] != "const" or not isinstance(y[1], int):
+                    continue
+                k_ = y[1]
+                lower = None  # the guard implies x >= lower
+                if (op == "Ne" and pos or op == "Eq" and not pos) and k_ == 0:
+                    lower = 1
+                elif (op == "Gt" and pos) or (op == "Le" and not pos):
+                    lower = k_ + 1
+                elif (op == "Ge" and pos) or (op == "Lt" and not pos):
+                    lower = k_
+                if lower is not None and lower >= c_:
+                    return "J12", "x - %d under the dominating guard %s %s %d (%s): x >= %d" % (c_, nshow(x)[:40], op, k_, pos, lower)
+            return None, "%s: no dominating guard implies the bound (operands: %s)" % (what, ", ".join(nshow(o)[:60] for o in ops))
         if what.startswith("Overflow("):
             return None, "%s has no table justification: it needs a dominating guard that implies the bound (operands: %s)" % (what, ", ".join(nshow(o)[:60] for o in ops))
         if what == "BoundsCheck":
@@ -270,6 +292,17 @@ def justify(facts, s):
             return "J10", "capacity is a count/length of live data: %s" % nshow(n)[:80]
         if n is not None and n[0] == "call" and n[1].endswith("saturating_sub") and bounded_term(n[2][0]):
             return "J10", "capacity = saturating_sub of a bounded sum"
+
+        def cap_ok(x):
+            if bounded_term(x) or (x[0] == "const" and isinstance(x[1], int) and 0 <= x[1] <= 1):
+                return True
+            if x[0] == "field" and x[1][0] == "binop" and x[1][1] in ("Sub", "SubWithOverflow") and bounded_term(x[1][2]):
+                return True  # a bounded sum minus something (the subtraction's own overflow check is a separate site)
+            if x[0] == "binop" and x[1] in ("Sub", "SubWithOverflow") and bounded_term(x[2]):
+                return True
+            return False
+        if n is not None and n[0] == "phi" and all(cap_ok(x) for x in n[1]):
+            return "J10", "capacity is, on every path, a count/length of live data or such a sum reduced: %s" % nshow(n)[:80]
         if n is not None and n[0] == "field" and n[1][0] == "call" and n[1][1].endswith("size_hint"):
             return "J11", "capacity hint of a caller-supplied iterator"
         return None, "capacity %s" % (nshow(n)[:100] if n else "?")
